@@ -46,6 +46,8 @@ M = [
     ("C20-cache-cleared-when-relist-starts", "C20", None, "tools/mutants/C20-cache-cleared-when-relist-starts.diff", None),
     ("C05-vectored-writes-bypass-the-cipher", "C05", None, "tools/mutants/C05-vectored-writes-bypass-the-cipher.diff", None),
     ("C04-zero-length-write-retried-forever", "C04", None, "tools/mutants/C04-zero-length-write-retried-forever.diff", None),
+    ("C14-files-override-the-environment", "C14", None, "tools/mutants/C14-files-override-the-environment.diff", None),
+    ("C14-config-file-overrides-the-secret-file", "C14", None, "tools/mutants/C14-config-file-overrides-the-secret-file.diff", None),
     ("C16-frame-buffer-per-thread", "C16", None, "tools/mutants/C08-frame-buffer-per-thread.diff", None),
     ("C20-update-not-applied", "C20", "passage-adapters/agones/src/discovery_adapter.rs", "Some(found) => *found = target,", "Some(_) => {}"),
 ]
